@@ -1,108 +1,14 @@
-import Ebu.Spec.Locks
-import Ebu.Generated.Consts
-import Ebu.Model.Inflight
-import Ebu.Model.RegistrySteps
-import Ebu.Proofs.Locks
+import Ebu.Props.C03Facts
 import Ebu.Proofs.ConcProgress
 import Ebu.Spec.Flow
 /-!
-C03 — Concurrent use of the API is free of data races and deadlocks.
+C03 — Concurrent use of the API is free of data races and deadlocks (second part).
 
-Two layers.  (1) Generic theorems about RW-mutex semantics (M11): a reachable mutex never has
-two goroutines holding it in conflicting modes, hence under the lock discipline no two
-goroutines are positioned at conflicting accesses to one location.  (2) Obligations on the
-CURRENT source: the access, callback and nesting tables in `Ebu/Generated/LockFacts.lean` are
-regenerated from /repo on every run by /verif/go/extract, and the discipline predicates are
-evaluated on them by the kernel (`decide`).  What is trusted: that the extractor reports every
-access with the lock set that really is held there (syntactic analysis, see DESIGN.md), and the
-Go memory model ("properly locked ⇒ race free").
+`Ebu/Props/C03Facts.lean` holds the data-race half (RW-mutex theorems and the obligations on the lock facts of the current
+source, which other properties reuse); this file holds the deadlock half: the deadlock-freedom theorem of the interleaving
+model M2 and the obligations that tie M2's steps to the control flow of the current source.
 -/
 namespace Ebu.Props.C03
-open Ebu.Locks Ebu.Generated
-
-/-- a reachable mutex never has two goroutines holding it in conflicting modes -/
-theorem no_conflicting_holders (l : RW) (h : RW.Reachable l) (t u : Nat) (htu : t ≠ u)
-    (ht : l.mode t = 2) (hu : 1 ≤ l.mode u) : False :=
-  Ebu.Locks.no_conflicting_holders l h t u htu ht hu
-
-/-- lock discipline ⇒ no data race: two accesses of the table to one location, at least one of
-them a write, neither atomic, cannot be performed by two different goroutines at the same time –
-whatever state the location's guard mutex is in -/
-theorem discipline_implies_no_race (facts : List AccessFact) (hd : Discipline facts = true)
-    (a b : AccessFact) (ha : a ∈ facts) (hb : b ∈ facts) (hconf : a.write = true ∨ b.write = true)
-    (hna : a.atomic = false) (hnb : b.atomic = false)
-    (l : RW) (hl : RW.Reachable l) (t u : Nat) (htu : t ≠ u)
-    (hta : l.mode t = a.guardMode) (hub : l.mode u = b.guardMode) : False := by
-  have hA : accessOk a = true := List.all_eq_true.mp hd a ha
-  have hB : accessOk b = true := List.all_eq_true.mp hd b hb
-  simp only [accessOk, hna, hnb] at hA hB
-  rcases hconf with hw | hw
-  · simp [hw] at hA
-    cases hbw : b.write <;> simp [hbw] at hB
-    · exact Ebu.Locks.no_conflicting_holders l hl t u htu (by omega) (by omega)
-    · exact Ebu.Locks.no_conflicting_holders l hl t u htu (by omega) (by omega)
-  · simp [hw] at hB
-    cases haw : a.write <;> simp [haw] at hA
-    · exact Ebu.Locks.no_conflicting_holders l hl u t (Ne.symm htu) (by omega) (by omega)
-    · exact Ebu.Locks.no_conflicting_holders l hl u t (Ne.symm htu) (by omega) (by omega)
-
-/-- OBLIGATION on the current source: every access to shared state follows the discipline -/
-theorem facts_discipline : Discipline accessFacts = true := by decide
-
-/-- OBLIGATION: handlers, filters, hooks and error/panic handlers run with no bus lock held
-(so they may call back into the bus without self-deadlock), and store appends are serialised -/
-theorem facts_callbacks_lock_free : CallbacksOk callbackFacts = true := by decide
-
-/-- OBLIGATION: upcaster validation and insertion are one write-locked critical section
-(racing registrations are therefore sequentially consistent: C16's acyclicity carries over) -/
-theorem facts_register_atomic : RegisterAtomic accessFacts = true := by decide
-
-/-- OBLIGATION: Subscribe, SubscribeContext, Unsubscribe, Clear and ClearAll each look up and update the registry
-inside ONE write-locked critical section (an `Unsubscribe` that finds its handler under one lock acquisition and
-removes "the element at that index" under another removes somebody else's registration when two removals overlap);
-this is what lets the interleaving model M2 treat them as single atomic steps -/
-theorem facts_registry_ops_atomic : RegistryOpsAtomic accessFacts = true := by decide
-
-/-- the obligation above is not decoration (M2r): removals done atomically touch nobody else's registration in
-either lock order, while "find the index, release, re-lock, cut that index" lets two overlapping removals leave
-an unsubscribed handler registered and delete one nobody unsubscribed -/
-theorem two_phase_unsubscribe_is_wrong :
-    (∀ (r : Ebu.RegistrySteps.Reg) (a b c : Nat), c ≠ a → c ≠ b →
-      (Ebu.RegistrySteps.removeAtomic (Ebu.RegistrySteps.removeAtomic r a) b).count c = r.count c) ∧
-    Ebu.RegistrySteps.removeAt (Ebu.RegistrySteps.removeAt [10, 20, 30] 0) 1 = [20] :=
-  ⟨fun r a b c hca hcb => (Ebu.RegistrySteps.atomic_removals_exact r a b).2 c hca hcb, by decide⟩
-
-/-- OBLIGATION + consequence: `inflight.done` in the current source broadcasts when the count reaches zero and
-`inflight.wait` re-checks the count in a loop; hence (M2w, `Ebu/Model/Inflight.lean`) with any number of goroutines
-in `Wait` and under every schedule nobody stays parked on the condition variable while nothing is in flight – `Wait`
-cannot deadlock by a lost wake-up (with `Signal` it can: `Ebu.Inflight.signal_loses_wakeup`) -/
-theorem wait_wakes_every_waiter (ops : List Ebu.Inflight.Op) :
-    Ebu.Generated.Consts.inflightDoneWake = "Broadcast" ∧ Ebu.Generated.Consts.inflightWaitRechecks = true ∧
-    Ebu.Inflight.NoLostWakeup (Ebu.Inflight.run .broadcast ops) :=
-  ⟨by decide, by decide, Ebu.Inflight.broadcast_no_lost_wakeup ops⟩
-
-/-- OBLIGATION: `MemoryStore.Append` takes the next offset and inserts the record inside one write-locked critical
-section: concurrent appenders (two buses on one store, or direct use) cannot put a later offset into the log first -/
-theorem facts_memstore_append_atomic : MemAppendAtomic accessFacts = true := by decide
-
-/-- OBLIGATION: locks are nested only along one fixed order: no lock-order cycle -/
-theorem facts_nesting_ordered : NestingOk nestingFacts = true := by decide
-
-/-- the shard index computed by `getShard` is always a valid index, and uses every shard:
-`h & (numShards-1)` equals `h mod numShards` for the constant in the source -/
-theorem shard_index_in_range (h : Nat) :
-    h &&& (numShards - 1) < numShards ∧ h &&& (numShards - 1) = h % numShards := by
-  have : numShards = 2 ^ 5 := by decide
-  rw [this]
-  constructor
-  · have := Nat.and_le_right (n := h) (m := 2 ^ 5 - 1); omega
-  · exact Nat.and_two_pow_sub_one_eq_mod h 5
-
-/-- OBLIGATION: `getShard` in the current source computes exactly that expression – FNV-1a (32 bit)
-of the type's string, masked with `numShards - 1` – which is also what the model driver routes with -/
-theorem shard_routing_matches_source :
-    Ebu.Generated.Consts.shardIndexIsMask = true ∧ Ebu.Generated.Consts.shardHashIsFnv1a32 = true ∧
-    Ebu.Generated.Consts.shardKeyIsTypeString = true := by decide
 
 /-! ### no deadlock (M2, `Ebu/Model/Conc.lean`): every schedule, any number of goroutines -/
 
@@ -153,9 +59,5 @@ theorem flow_handler_bracket : Ebu.Flow.handlerBracket = true := by decide +kern
 /-- OBLIGATION: both condition variables are used so that no wake-up is lost: the waiter re-checks in a loop, the
 state change is followed by a `Broadcast` (`Bus.Wait`'s counter and the ticket lock of Async+Sequential handlers) -/
 theorem flow_cond_vars : Ebu.Flow.condVarShape = true := by decide +kernel
-
-/-- non-vacuity: the tables are not empty and contain writes, reads and atomics -/
-example : accessFacts.length > 40 ∧ accessFacts.any (·.write) = true ∧ accessFacts.any (·.atomic) = true ∧
-    callbackFacts.length > 10 := by decide
 
 end Ebu.Props.C03
